@@ -109,6 +109,8 @@ def gen(seed: int, i: int, tier: str) -> dict:
         # several messages held for the sleeping node, then a wake during which transport writes fail
         scn["batch"] = [[2, rng.choice([0, 1]), 1, 0, t, f"b{k}"] for k, t in enumerate(rng.sample([0, 2, 3, 24, 47], rng.randint(2, 4)))]
         scn["tapes"] = {"w.fail.set": [rng.choice([0, 1, 2]) for _ in range(3)]}
+        if rng.random() < 0.4:
+            scn["switch_to"] = rng.choice([p for p in G.PROTOS_2X if p != proto])
     return scn
 
 
@@ -223,6 +225,11 @@ def _batch(scn, proto, res):
                 lines[(f[0], f[1], f[4])] = encode(tuple(f))
         written = []
         failed_any = False
+        if scn.get("switch_to"):
+            # the gateway was updated between parking and the wake: held messages must survive
+            proto = scn["switch_to"]
+            w.listen_step(f"0;255;3;0;2;{proto}.0\n")
+            res.probes["protocol_switch_while_held"] += 1
         for k in range(len(scn["batch"]) + 4):
             o = w.listen_step(G.wake_line(proto, 2, k))
             written += [ln for ln, ok in o.writes if ok]
